@@ -507,6 +507,10 @@ def rule_gh(model, rep):
               site("HtpasswdFile.get_hash"), "lookup by encoded user; None when missing", "get_hash validates the name and answers None for unknown users")
 
 
+from . import c01 as _c01  # noqa: E402
+from .shared import Renamed as _Renamed  # noqa: E402
+
+
 def run(model, rep):
     rep.explanation = __doc__
     rep.assumptions = ["dict preserves insertion order and `del` removes exactly one key (language semantics)"]
@@ -520,3 +524,5 @@ def run(model, rep):
     rule_h(model, rep)
     rule_j(model, rep)
     rule_k(model, rep)
+    # check_password() answers through handler.verify(): verify() must recompute with what hash() was given (user, realm, encoding)
+    _c01.rule_d(model, _Renamed(rep, {"C01.d": "C16.l-hash-verify-wiring"}, "C16.x-"))
